@@ -424,6 +424,54 @@ func init() {
 		l.p("/-- `mergeDescs` reads the live offset once per descriptor, stats the file again (conditionally) after that read")
 		l.p("and refreshes `LastSeenSize` from that stat before it decides (fix f247e22) -/")
 		l.p("def mergeRestatsAfterOffset : Bool := %s", leanBool(restat))
+		// --- repair of F61 (proposed-fixes/F61.diff): mergeDescs puts a descriptor of `old` whose id the scan did not
+		//     find into its result (once). Structure: a loop that ranges over the FIRST parameter of mergeDescs (the old
+		//     set) and is not the loop that reads the live offset contains an assignment into an element of the variable
+		//     the function returns.
+		keepsMissed := false
+		if fd := sp.method("Scanner", "mergeDescs"); fd != nil {
+			oldName, resName := "", ""
+			if fd.Type.Params != nil && len(fd.Type.Params.List) > 0 && len(fd.Type.Params.List[0].Names) > 0 {
+				oldName = fd.Type.Params.List[0].Names[0].Name
+			}
+			ast.Inspect(fd.Body, func(n ast.Node) bool {
+				if r, ok := n.(*ast.ReturnStmt); ok && len(r.Results) == 1 {
+					if id, ok := r.Results[0].(*ast.Ident); ok {
+						resName = id.Name
+					}
+				}
+				return true
+			})
+			if oldName == "" || resName == "" {
+				problem("scanner.Scanner.mergeDescs: first parameter / returned variable not identified")
+			} else {
+				ast.Inspect(fd.Body, func(n ast.Node) bool {
+					rs, ok := n.(*ast.RangeStmt)
+					if !ok {
+						return true
+					}
+					if id, ok := rs.X.(*ast.Ident); !ok || id.Name != oldName || flowCallsNamed(rs.Body, "getOffset") {
+						return true
+					}
+					ast.Inspect(rs.Body, func(m ast.Node) bool {
+						if as, ok := m.(*ast.AssignStmt); ok {
+							for _, lhs := range as.Lhs {
+								if ix, ok := lhs.(*ast.IndexExpr); ok {
+									if id, ok := ix.X.(*ast.Ident); ok && id.Name == resName {
+										keepsMissed = true
+									}
+								}
+							}
+						}
+						return true
+					})
+					return true
+				})
+			}
+		}
+		l.p("/-- `mergeDescs` keeps a descriptor of the old set whose id the scan did not find (for one more scan): the loop over")
+		l.p("the old set stores into the result (repair of finding F61) -/")
+		l.p("def mergeKeepsMissedOneScan : Bool := %s", leanBool(keepsMissed))
 		// --- fix 5ccf34b: between the parser's open of the path and the start of the worker's goroutine the file is
 		//     identified again (utils.GetFileId) and compared with the descriptor's id; a difference ends the start
 		//     (guard whose body returns). Read from runWorker with its same-package callees inlined, so the check may
